@@ -115,7 +115,7 @@ func Build(w *kernel.World, cfg Cfg, wr *Wrappers) *Deployment {
 		if cfg.L1 == "chunked" {
 			mr = false
 		}
-		o, d.Slot = orcas.Locked(o, mr, cfg.Concurrency)
+		o, d.Slot = lockedConst(o, mr, cfg.Concurrency)
 	}
 	lm := w.AddListener("main")
 	go server.ListenAndServe(func() (server.Listener, error) { return lm, nil }, protocols, server.Default, o, h1, h2)
@@ -131,4 +131,37 @@ func Build(w *kernel.World, cfg Cfg, wr *Wrappers) *Deployment {
 		go server.ListenAndServe(func() (server.Listener, error) { return lb, nil }, protocols, server.Default, ob, h1, h2)
 	}
 	return d
+}
+
+// rend allows 1024 lock sets per process (orcas.maxLockSets) and never frees one. A
+// worker process executes many runs, so after lockSetBudget genuine orcas.Locked
+// calls the lock sets created so far are reused through the equally public
+// orcas.LockedWithExisting (the lock objects' simulated state is per run).
+const lockSetBudget = 900
+
+var (
+	lockSetsMade  int
+	lockSetByKind = map[[2]int]uint32{}
+)
+
+func lockedConst(o orcas.OrcaConst, multiReader bool, concurrency uint8) (orcas.OrcaConst, uint32) {
+	kind := [2]int{0, int(concurrency)}
+	if multiReader {
+		kind[0] = 1
+	}
+	if lockSetsMade < lockSetBudget {
+		lockSetsMade++
+		oc, slot := orcas.Locked(o, multiReader, concurrency)
+		lockSetByKind[kind] = slot
+		return oc, slot
+	}
+	slot, ok := lockSetByKind[kind]
+	if !ok {
+		lockSetsMade++
+		var oc orcas.OrcaConst
+		oc, slot = orcas.Locked(o, multiReader, concurrency)
+		lockSetByKind[kind] = slot
+		return oc, slot
+	}
+	return orcas.LockedWithExisting(o, slot), slot
 }
